@@ -529,6 +529,20 @@ func (e *Engine) VerifyFunc(fc *FuncContract) *FuncResult {
 		}
 		vc.trusted["assumed in "+fc.Key()+": calls with unknown effects do not modify "+ptxt] = true
 	}
+	if ptxt := fc.Opts["protect-local"]; ptxt != "" {
+		// designators over local variables (objects the function creates and has not handed out
+		// yet): evaluated at each call with unknown effects, skipped while the local is not live
+		for _, part := range splitTop(ptxt, ',') {
+			pe, err := ParseExpr(part)
+			if err != nil {
+				res.Err = fmt.Errorf("%s: protect-local: %v", fc.Key(), err)
+				return res
+			}
+			x.lateProt = append(x.lateProt, pe)
+		}
+		x.lateText = ptxt
+		vc.trusted["assumed in "+fc.Key()+": calls with unknown effects do not modify "+ptxt+" (objects created by the function and not yet handed out)"] = true
+	}
 	// vacuity: precondition satisfiable
 	vc.obls = append(vc.obls, &Obligation{Name: "cover/requires", Kind: "cover", Goal: TFalse, TraceLen: len(vc.trace), Pos: res.Pos, ExpectSat: true, Text: "precondition is satisfiable", Func: fc.Key(), Claimed: true})
 	out, rv, err := x.execFunc(fn, args, nil, st, "", 0)
